@@ -154,6 +154,7 @@ World gen_world(Rng &r) {
     w.clock_us = (r.chance(1, 2) ? instants[r.below(sizeof instants / sizeof *instants)] : (int64_t)r.below(4200000000ULL)) * 1000000 + (int64_t)r.below(1000000);
     w.clock_step_us = r.chance(1, 4) ? (int64_t)r.range(100000, 900000) : (int64_t)r.range(1, 999);
     w.stdout_kind = (int)r.below(3);
+    if (r.chance(1, 12)) w.stdout_kind = 3;   // a daemon that closed its standard descriptors
     // ids that differ because the program file is set-uid / set-gid: the kernel then starts the image in secure-execution mode
     if ((w.uid != w.euid || w.gid != w.egid) && r.chance(1, 2)) w.at_secure = true;
     return w;
